@@ -2,6 +2,7 @@ package main
 
 import (
 	"fmt"
+	"math"
 	"reflect"
 	"sort"
 	"strconv"
@@ -62,6 +63,9 @@ func optVal(v int, ok bool) string {
 }
 
 func shrinkOpts(f []string) []shrinkingmap.Option {
+	if len(f) == 1 && f[0] == "default" {
+		return nil // New() without options: ratio 10.0, count 100
+	}
 	num, den, count := atoi(f[0]), atoi(f[1]), atoi(f[2])
 	if den <= 0 {
 		panic("bad ratio")
@@ -299,10 +303,25 @@ func (w *shrinkW) exec(r *hx.Run, f []string) (string, string) {
 
 var ratios = [][2]int{{0, 1}, {1, 2}, {1, 1}, {3, 2}, {2, 1}, {3, 1}}
 
-func genOpts(rng *hx.Rng) string {
-	rt := hx.Pick(rng, ratios)
+// unusual but legal option values (all exact in float32): a tiny, a huge and a negative ratio;
+// counts 1, MaxInt, negative
+var oddRatios = [][2]int{{1, 1 << 20}, {1 << 40, 1}, {-1, 1}, {10, 1}}
+var oddCounts = []int{1, 100, math.MaxInt, math.MaxInt - 1, -1, math.MinInt}
 
-	return fmt.Sprintf("new %d %d %d", rt[0], rt[1], rng.Intn(4))
+func genOpts(rng *hx.Rng) string {
+	if rng.Chance(1, 25) {
+		return "new default"
+	}
+	rt := hx.Pick(rng, ratios)
+	count := rng.Intn(4)
+	if rng.Chance(1, 5) {
+		rt = hx.Pick(rng, oddRatios)
+	}
+	if rng.Chance(1, 5) {
+		count = hx.Pick(rng, oddCounts)
+	}
+
+	return fmt.Sprintf("new %d %d %d", rt[0], rt[1], count)
 }
 
 func genShrink(rng *hx.Rng, n int) []string {
@@ -565,6 +584,7 @@ func (w *rmapW) exec(r *hx.Run, f []string) (string, string) {
 func genRMap(rng *hx.Rng, n int) []string {
 	ops := []string{"rmap " + genOpts(rng)}
 	nk := rng.Range(4, 6)
+	present := map[int]bool{} // the generator follows the size to aim counts at it
 	for i := 0; i < n; i++ {
 		k := rng.Intn(nk)
 		var op string
@@ -572,12 +592,14 @@ func genRMap(rng *hx.Rng, n int) []string {
 		case x < 28:
 			// values identify their key, so that distinct values are distinct entries
 			op = fmt.Sprintf("set %d %d", k, k*100+rng.Intn(10))
+			present[k] = true
 		case x < 34:
 			op = fmt.Sprintf("get %d", k)
 		case x < 38:
 			op = fmt.Sprintf("has %d", k)
 		case x < 56:
 			op = fmt.Sprintf("del %d", k)
+			delete(present, k)
 		case x < 60:
 			op = "size"
 		case x < 70:
@@ -593,7 +615,15 @@ func genRMap(rng *hx.Rng, n int) []string {
 		case x < 91:
 			op = "randentry"
 		default:
-			op = fmt.Sprintf("rue %d", rng.Intn(8))
+			size := len(present)
+			// counts around the size, and unusual but legal ones: "everything" (MaxInt and other huge
+			// values) and negative ones (the parameter is a signed int; below 1 means nothing)
+			op = fmt.Sprintf("rue %d", hx.Pick(rng, []int{0, 1, 2, size - 1, size, size + 1, 2 * size, rng.Intn(8),
+				1 << 20, 1 << 46, 1 << 62, math.MaxInt - 1, math.MaxInt, -1, math.MinInt}))
+			// (counts between about 2^28 and 2^45 are left out on purpose: code that allocates by the count
+			// would not panic but exhaust memory -- the Go runtime dies with a fatal error or the collector
+			// thrashes -- which takes the harness down instead of producing a failing input; from 2^46 on
+			// makeslice panics recoverably)
 		}
 		ops = append(ops, "rmap "+op)
 	}
